@@ -87,6 +87,7 @@ type summary struct {
 	Effects      map[string]effect
 	Escapes      map[int]bool // parameter index whose pointer may be retained beyond the call
 	Fresh        map[int]bool // result index whose value is always an object allocated during the call
+	RetParams    map[int][]int // result index whose value is always fresh or (an object handed in as) one of these parameters
 	CallsUnknown bool         // may run code outside the analysed set through an interface or function value
 }
 
@@ -123,7 +124,7 @@ func (c *Ctx) Effects() *Effects {
 	for fn := range c.allFuncSet {
 		if analysable(fn) {
 			e.funcs = append(e.funcs, fn)
-			e.sums[fn] = &summary{Effects: map[string]effect{}, Escapes: map[int]bool{}, Fresh: map[int]bool{}}
+			e.sums[fn] = &summary{Effects: map[string]effect{}, Escapes: map[int]bool{}, Fresh: map[int]bool{}, RetParams: map[int][]int{}}
 		}
 	}
 	sortFuncs(e.funcs)
@@ -229,6 +230,13 @@ func (e *Effects) originRec(fn *ssa.Function, v ssa.Value, cache map[ssa.Value]o
 					out.add(origin{Kind: orgLocal})
 					break
 				}
+				if cs := e.sums[f]; cs != nil && len(cs.RetParams[x.Index]) > 0 && len(call.Call.Args) == len(f.Params) {
+					out.add(origin{Kind: orgLocal})
+					for _, k := range cs.RetParams[x.Index] {
+						out.union(rec(call.Call.Args[k]))
+					}
+					break
+				}
 			}
 		}
 		out.union(rec(x.Tuple))
@@ -282,6 +290,13 @@ func (e *Effects) originRec(fn *ssa.Function, v ssa.Value, cache map[ssa.Value]o
 		if f := x.Call.StaticCallee(); f != nil && !isTuple(x.Type()) {
 			if cs := e.sums[f]; cs != nil && cs.Fresh[0] {
 				out.add(origin{Kind: orgLocal})
+				break
+			}
+			if cs := e.sums[f]; cs != nil && len(cs.RetParams[0]) > 0 && len(x.Call.Args) == len(f.Params) {
+				out.add(origin{Kind: orgLocal})
+				for _, k := range cs.RetParams[0] {
+					out.union(rec(x.Call.Args[k]))
+				}
 				break
 			}
 		}
@@ -583,6 +598,36 @@ func (e *Effects) summarise(fn *ssa.Function) bool {
 						fresh = false
 					}
 				}
+			}
+			// fresh, or one of the objects handed in (append-style helpers that return the slice they extend)
+			viaParams := map[int]bool{}
+			okVia := true
+			for _, r := range rets {
+				orgs := e.originOf(fn, results(r)[i])
+				if len(orgs) == 0 && !isNil(results(r)[i]) {
+					okVia = false
+				}
+				for o := range orgs {
+					switch {
+					case o.Kind == orgLocal && !o.Deep:
+					case o.Kind == orgParam && !o.Deep:
+						viaParams[o.Idx] = true
+					default:
+						okVia = false
+					}
+				}
+			}
+			var via []int
+			if okVia && len(viaParams) > 0 {
+				for k := range viaParams {
+					via = append(via, k)
+				}
+				sort.Ints(via)
+			}
+			if fmt.Sprint(via) != fmt.Sprint(s.RetParams[i]) {
+				s.RetParams[i] = via
+				changed = true
+				e.orgCache = map[*ssa.Function]map[ssa.Value]orgSet{}
 			}
 			if fresh != s.Fresh[i] {
 				// freshness can only be gained as callee summaries improve; origins are cached, so
